@@ -191,6 +191,9 @@ func (st *ex6State) start() {
 		st.cconn = NewConn(s, "cconn", &net.UDPAddr{IP: net.ParseIP("fe80::1"), Port: 546})
 		st.cconn.OnWrite = func(b []byte, to net.Addr) { st.clientTx(b) }
 		st.cconn.OnRead = func(d dgram, n int) {
+			if len(d.b) <= 1500 {
+				n = len(d.b) // judged as on the wire (see clientcore.go onRead)
+			}
 			st.clientRx(append([]byte(nil), d.b[:n]...), d.serial, strings.HasSuffix(d.tag, "+corrupt"))
 		}
 		st.cconn.OnReadEnter = func() {
@@ -199,7 +202,11 @@ func (st *ex6State) start() {
 			}
 		}
 		s.EnterSUT()
-		cl, err := nclient6.NewWithConn(st.cconn, clientHW, nclient6.WithTimeout(st.T), nclient6.WithRetry(st.tries))
+		copts := []nclient6.ClientOpt{nclient6.WithTimeout(st.T), nclient6.WithRetry(st.tries)}
+		if t.Coin(1, 3) {
+			copts = append(copts, nclient6.WithLogDroppedPackets())
+		}
+		cl, err := nclient6.NewWithConn(st.cconn, clientHW, copts...)
 		s.LeaveSUT()
 		if err != nil {
 			st.newErr = err
@@ -407,6 +414,11 @@ func (st *ex6State) handler(sv *ex6Server) server6.Handler {
 			case 2:
 				addr.PreferredLifetime, addr.ValidLifetime = inf, inf
 				s.Fault("reply-infinite-lifetime")
+			}
+			if t.Coin(1, 6) {
+				// a per-address status code: an option nested inside the IA address
+				addr.Options.Add(&dhcpv6.OptStatusCode{StatusCode: iana.StatusSuccess, StatusMessage: "addr ok"})
+				s.Fault("reply-option-inside-ia-address")
 			}
 			ia.Options.Add(addr)
 			if t.Coin(1, 8) {
